@@ -46,6 +46,11 @@ theorem qscan_content (delim : Sim.Byte) (hd : (Sim.QUOTE == delim) = false) (co
   Sim.qscan_content delim hd content tail acc ht
 
 /-- T1: the functions this property's mirror model follows have today the source text the model was written against. -/
-theorem tie : Tie.sameAll ["fastcsv.bufferedReader.more", "fastcsv.bufferedReader.reset", "fastcsv.fields.nextUnquotedField", "fastcsv.nextQuotedField", "fastcsv.fields.next", "fastcsv.Reader.Next", "fastcsv.eofReaderWrapper.Read", "io.ReadCSV", "io.columnToData", "io.renameDuplicateColumns", "io.addAliasToMissingColumnNames", "io.isEmptyLine", "qframe.ReadCSV"] = true := by decide
+-- Tie audit (bin/selftest-ties): the following functions are not compared as text any more; every behaviour-changing edit of
+-- them makes a `gen_*_canon` theorem of this property's modules fail, renaming their locals or reformatting them changes nothing:
+-- the seven functions of internal/fastcsv (`bufferedReader.more`, `reset`, `fields.nextUnquotedField`, `nextQuotedField`, `fields.next`, `Reader.Next`, `eofReaderWrapper.Read`):
+-- `Gen.csvFns` (csvast.go), `C12CsvCanon.gen_csv_canon` + `C12CsvGen.gen_csv_semantics_partial`. `columnToData`: `Gen.columnToDataAst` (iast.go), `C12InferGen.gen_infer_canon` + `gen_columnToData_spec`.
+-- The glue of ReadCSV is regenerated in `Gen.readCsvAst` / `renameDupAst` / `addAliasAst` / `isEmptyLineAst` / `readCsvEntryAst` (C12GlueGen.gen_csvglue_semantics, gen_rename_semantics); nothing of C12 is compared as text any more.
+theorem tie : Tie.sameAll [] = true := by decide
 
 end QF.Props.C12
